@@ -7,7 +7,7 @@ from typing import Dict, List, Optional, Set, Tuple
 from .core import AnalysisError, Report
 from .emit import Folder
 from .prog import (Program, bind_call, dotted, enclosing, func_params, guards_of, inline_locals, local_assignments, parent,
-                   stmt_of, unparse, walk_no_nested)
+                   single_def, stmt_of, unparse, walk_no_nested)
 from .rules_pybind import find_tpl
 
 XP = "gtwrap/xml_parser/xml_parser.py"
@@ -27,6 +27,8 @@ def docstring_source(ctx):
     if tpl is None:
         raise AnalysisError("_wrap_method: template with a {docstring} slot not found")
     e = tpl.slot("docstring").expr
+    if isinstance(e, ast.Name) and isinstance(single_def(fn, e.id), ast.IfExp):
+        e = single_def(fn, e.id)          # the conditional expression held in a local: the same shape, one name away
     if isinstance(e, ast.IfExp):
         empty_ok = unparse(e.test).replace(" ", "") in ("self.xml_source!=''", 'self.xml_source!=""') \
             and isinstance(e.orelse, ast.Constant) and e.orelse.value == ""
